@@ -3,17 +3,20 @@
 #include <stdint.h>
 static unsigned long h; static void mix(unsigned long v){ h = (h ^ v) * 1099511628211UL + 7; }
 static void mixs(const char *s){ while (*s) mix((unsigned char)*s++); mix(255); }
-const char *const s0 = "a\n"; static const char sa0[] = "a\n";
-const char *const s1 = "a_x"; static const char sa1[] = "a_x";
-const char *const s2 = "gamma_x"; static const char sa2[] = "gamma_x";
-const char *const s3 = "delta"; static const char sa3[] = "delta";
-const char *const s4 = "gamma\n"; static const char sa4[] = "gamma\n";
-const char *const *const strtab[] = {&s0, &s1, &s2, &s3, &s4};
-int arr0[4] = {871, 715, 695, 438}; int *parr0 = &arr0[2]; const int carr0[4] = {871, 715, 695, 438}; const int *const pc0 = &carr0[3];
-int arr1[7] = {401, 137, 878, 324, 239, 372, 916}; int *parr1 = &arr1[5]; const int carr1[7] = {401, 137, 878, 324, 239, 372, 916}; const int *const pc1 = &carr1[3];
-__thread int tl0 = 12; static __thread int stl0; __thread char tbuf0[17];
-__thread int tl1 = 47; static __thread int stl1; __thread char tbuf1[8];
-__thread int tl2 = 95; static __thread int stl2; __thread char tbuf2[1];
+const char *const s0 = "omega\n"; static const char sa0[] = "omega\n";
+const char *const s1 = "bet!"; static const char sa1[] = "bet!";
+const char *const s2 = "ta_x"; static const char sa2[] = "ta_x";
+const char *const s3 = "delta\n"; static const char sa3[] = "delta\n";
+const char *const s4 = "bet"; static const char sa4[] = "bet";
+const char *const s5 = "alpha!"; static const char sa5[] = "alpha!";
+const char *const *const strtab[] = {&s0, &s1, &s2, &s3, &s4, &s5};
+int arr0[6] = {929, 699, 453, 939, 138, 842}; int *parr0 = &arr0[4]; const int carr0[6] = {929, 699, 453, 939, 138, 842}; const int *const pc0 = &carr0[1];
+int arr1[1] = {483}; int *parr1 = &arr1[0]; const int carr1[1] = {483}; const int *const pc1 = &carr1[0];
+int arr2[9] = {169, 419, 339, 440, 175, 180, 75, 554, 257}; int *parr2 = &arr2[5]; const int carr2[9] = {169, 419, 339, 440, 175, 180, 75, 554, 257}; const int *const pc2 = &carr2[6];
+int arr3[7] = {528, 478, 617, 96, 967, 601, 772}; int *parr3 = &arr3[6]; const int carr3[7] = {528, 478, 617, 96, 967, 601, 772}; const int *const pc3 = &carr3[1];
+__thread int tl0 = 47; static __thread int stl0; __thread char tbuf0[3];
+__thread int tl1 = 40; static __thread int stl1; __thread char tbuf1[8];
+__thread int tl2 = 38; static __thread int stl2; __thread char tbuf2[8];
 static int f0(int x){ return x + 1; } static int f1(int x){ return x * 3; } int f2(int x){ return x - 5; }
 int (*const ftab[])(int) = { f0, f1, f2 }; int (*volatile fp)(int) = f2;
 static int ifimpl(int x){ return x ^ 0x55; } static void *ifres(void){ return (void*)ifimpl; } int ifn(int) __attribute__((ifunc("ifres")));
@@ -26,18 +29,21 @@ extern __thread int gd_a; extern __thread long gd_b[]; extern int tlsd_get(void)
 extern __thread char tls_fill[];
 extern int tlsl_get(void); extern void tlsl_bump(int); extern long tlsl_sum(void); extern long tlsl_gap(void); static unsigned long h2; static void mix2(unsigned long v){ h2 = (h2 ^ v) * 1099511628211UL + 11; }
 int main(void){
-    mix(tlsd_get()); mix(tlsd_sum()); tlsd_bump(25); mix(tlsd_get()); mix(tlsd_sum()); mix(gd_a); gd_a += 4; mix(tlsd_get());
-    mix(tlsd_addr() == &gd_a); mix(tlsd_tl0_addr() == &tl0); mix(tlsd_gap()); mix(tlsd_align()); gd_b[0] = 26; tlsd_bump(3); mix(tlsd_sum());
+    mix(tlsd_get()); mix(tlsd_sum()); tlsd_bump(19); mix(tlsd_get()); mix(tlsd_sum()); mix(gd_a); gd_a += 4; mix(tlsd_get());
+    mix(tlsd_addr() == &gd_a); mix(tlsd_tl0_addr() == &tl0); mix(tlsd_gap()); mix(tlsd_align()); gd_b[0] = 66; tlsd_bump(3); mix(tlsd_sum());
     tls_fill[0] += 1; mix(tls_fill[0]);
-    mix2(tlsl_get()); mix2(tlsl_sum()); tlsl_bump(57); mix2(tlsl_get()); mix2(tlsl_sum()); mix2(tlsl_gap()); tlsl_bump(3); mix2(tlsl_sum());
-    for (unsigned i = 0; i < 5; i++) mixs(*strtab[i]);
+    mix2(tlsl_get()); mix2(tlsl_sum()); tlsl_bump(7); mix2(tlsl_get()); mix2(tlsl_sum()); mix2(tlsl_gap()); tlsl_bump(3); mix2(tlsl_sum());
+    for (unsigned i = 0; i < 6; i++) mixs(*strtab[i]);
     mixs(sa0); mix(strcmp(s0, sa0) == 0);
     mixs(sa1); mix(strcmp(s1, sa1) == 0);
     mixs(sa2); mix(strcmp(s2, sa2) == 0);
     mixs(sa3); mix(strcmp(s3, sa3) == 0);
     mixs(sa4); mix(strcmp(s4, sa4) == 0);
+    mixs(sa5); mix(strcmp(s5, sa5) == 0);
     mix(*parr0); mix(*pc0); mix(parr0 - arr0); mix(pc0 - carr0); arr0[0] += 3; mix(arr0[0]);
     mix(*parr1); mix(*pc1); mix(parr1 - arr1); mix(pc1 - carr1); arr1[0] += 3; mix(arr1[0]);
+    mix(*parr2); mix(*pc2); mix(parr2 - arr2); mix(pc2 - carr2); arr2[0] += 3; mix(arr2[0]);
+    mix(*parr3); mix(*pc3); mix(parr3 - arr3); mix(pc3 - carr3); arr3[0] += 3; mix(arr3[0]);
     mix(tl0); stl0 += tl0 + 2; mix(stl0); tbuf0[0] = 9; mix(tbuf0[0]); mix((uintptr_t)&tl0 % __alignof__(int));
     mix(tl1); stl1 += tl1 + 2; mix(stl1); tbuf1[0] = 9; mix(tbuf1[0]); mix((uintptr_t)&tl1 % __alignof__(int));
     mix(tl2); stl2 += tl2 + 2; mix(stl2); tbuf2[0] = 9; mix(tbuf2[0]); mix((uintptr_t)&tl2 % __alignof__(int));
